@@ -20,7 +20,7 @@ CLAIMS = {
          "BestIsOptimum is checked for every final population of the bounded model (ties, both directions) and on every real run of the corpus: member of the last generation, nothing strictly better in the task's direction.",
          POPNOTE, "DESIGN.md 6 C03"),
  "C04": (MC, "TLC exhaustive on StopRule.tla (+ liveness) + every terminal behaviour replayed into the real optimize() through a scripted optimizer + TLC judge (TraceStop.tla); corpus runs judged with the same rule",
-         "The code-shaped stop machine is checked against the declarative rule for ALL rate histories up to the bound (max_cycles<=4(5), 4(5) rate levels, fitness_error, patience 1..3, min_delta levels) incl. termination under fairness; each terminal behaviour is replayed bit-exactly (dyadic rates) into the real loop and judged; off-grid float histories go through the Boolean projection; six deviations fail.",
+         "The code-shaped stop machine is checked against the declarative rule for ALL rate histories up to the bound (max_cycles<=4(5), 5 rate levels, fitness_error, patience 1..3, min_delta levels) incl. termination under fairness; each terminal behaviour is replayed bit-exactly (dyadic rates) into the real loop and judged; off-grid float histories go through the Boolean projection; five deviations fail.",
          TB + "rates on the grid are exact dyadic floats; rate=|1-mean fitness| recomputed by the harness (1e-12).", "DESIGN.md 4.3, 6 C04"),
  "C05": (MC, "TLC on PopMachine.tla (ArgsOK over every evaluation incl. discarded candidates; NaN-pass deviation fails) + TLC trace validation of every recorded objective call of real runs (serial/thread/process)",
          "Every argument the user's objective received during every corpus run (recorded in-process or through per-process O_APPEND logs) is classified against the task descriptor and judged by TLC; violations are keyed by optimizer, calling site and class.",
